@@ -514,35 +514,35 @@ class Sym:
         return SymBool(self.ctx, d, op, neg)
 
     def __eq__(self, o):
-        if isinstance(o, np.ndarray):
-            return NotImplemented
+        if isinstance(o, np.ndarray):   # numpy would build a bool array by truth-testing each comparison
+            return np.array([bool(self.__eq__(x)) for x in o.flat], dtype=bool).reshape(o.shape)
         r = self._cmp(o, "eq")
         return False if r is NotImplemented else r
 
     def __ne__(self, o):
-        if isinstance(o, np.ndarray):
-            return NotImplemented
+        if isinstance(o, np.ndarray):   # numpy would build a bool array by truth-testing each comparison
+            return np.array([bool(self.__ne__(x)) for x in o.flat], dtype=bool).reshape(o.shape)
         r = self._cmp(o, "eq", neg=True)
         return True if r is NotImplemented else r
 
     def __lt__(self, o):
-        if isinstance(o, np.ndarray):
-            return NotImplemented
+        if isinstance(o, np.ndarray):   # numpy would build a bool array by truth-testing each comparison
+            return np.array([bool(self.__lt__(x)) for x in o.flat], dtype=bool).reshape(o.shape)
         return self._cmp(o, "lt")
 
     def __le__(self, o):
-        if isinstance(o, np.ndarray):
-            return NotImplemented
+        if isinstance(o, np.ndarray):   # numpy would build a bool array by truth-testing each comparison
+            return np.array([bool(self.__le__(x)) for x in o.flat], dtype=bool).reshape(o.shape)
         return self._cmp(o, "le")
 
     def __gt__(self, o):
-        if isinstance(o, np.ndarray):
-            return NotImplemented
+        if isinstance(o, np.ndarray):   # numpy would build a bool array by truth-testing each comparison
+            return np.array([bool(self.__gt__(x)) for x in o.flat], dtype=bool).reshape(o.shape)
         return self._cmp(o, "lt", swap=True)
 
     def __ge__(self, o):
-        if isinstance(o, np.ndarray):
-            return NotImplemented
+        if isinstance(o, np.ndarray):   # numpy would build a bool array by truth-testing each comparison
+            return np.array([bool(self.__ge__(x)) for x in o.flat], dtype=bool).reshape(o.shape)
         return self._cmp(o, "le", swap=True)
 
     def __hash__(self):
